@@ -203,6 +203,14 @@ func runC17(c *runCfg) error {
 		emit("severities", &errT{kind: "wrap", a: []byte("w: "), inner: &errT{kind: "code", a: []byte("22012"), inner: &errT{kind: "sev", a: []byte(sv), inner: base("s")}}})
 		emit("severities", &errT{kind: "sev", a: []byte(""), inner: &errT{kind: "sev", a: []byte(sv), inner: base("s")}})
 	}
+	// joined errors (errors.Join): one error whose text is the texts of its parts, one per line; decorations inside
+	// the parts are not decorations of the joined error, decorations around it are
+	for _, j := range []*errT{{kind: "join", inner: base("a"), inner2: base("b")},
+		{kind: "join", inner: &errT{kind: "code", a: []byte("23505"), inner: base("dup")}, inner2: &errT{kind: "sev", a: []byte("FATAL"), inner: base("f")}},
+		{kind: "hint", a: []byte("h"), inner: &errT{kind: "join", inner: base("a"), inner2: &errT{kind: "wrap", a: []byte("w: "), inner: base("b")}}}} {
+		emit("joined", j)
+		emit("joined", &errT{kind: "code", a: []byte("42P01"), inner: j})
+	}
 	for _, cd := range []string{"XXUUU", "42601", "00000", "XX000", "P0001", "abcde", "4260", "426011", " "} {
 		emit("codes", &errT{kind: "code", a: []byte(cd), inner: base("c")})
 		emit("codes", &errT{kind: "code", a: []byte(cd), inner: &errT{kind: "code", a: []byte("23505"), inner: base("c")}})
